@@ -59,6 +59,15 @@ func (e *Enc) reachableHeaps(t types.Type, out map[string]string, seen map[strin
 	}
 }
 
+// jsonMapFuns: key set and values of a JSON object decoded into a map type.
+func jsonMapFuns(c *Ctx, t types.Type) (keys, vals string) {
+	mt := t.Underlying().(*types.Map)
+	id := c.typeID(mt)
+	keys = c.declFun(fmt.Sprintf("jsonKeys$%d", id), []string{sortStr}, fmt.Sprintf("(Array %s Bool)", c.sortOf(mt.Key())))
+	vals = c.declFun(fmt.Sprintf("jsonVals$%d", id), []string{sortStr}, fmt.Sprintf("(Array %s %s)", c.sortOf(mt.Key()), c.sortOf(mt.Elem())))
+	return
+}
+
 func (f *Frame) jsonUnmarshal(x ssa.Value, cc *ssa.CallCommon, args []*Val, st *State) bool {
 	e := f.enc
 	c := e.ctx
@@ -105,9 +114,13 @@ func (f *Frame) jsonUnmarshal(x ssa.Value, cc *ssa.CallCommon, args []*Val, st *
 		hn, hsrt, vn, vsrt := c.mapHeaps(T)
 		f.frameObl(oldRef, "json.Unmarshal into map", f.curInstr)
 		h := e.heapGet(st, hn, hsrt)
-		e.heapSet(st, hn, hsrt, store(h, oldRef, c.freshConst("json.keys", fmt.Sprintf("(Array %s Bool)", c.sortOf(m.Key())))))
+		// decoding into an empty map: the contents are a function of the text
+		kf, vf := jsonMapFuns(c, T)
+		wasEmpty := and(not(eq(oldRef, "nil")), eq(sel(h, oldRef), fmt.Sprintf("((as const (Array %s Bool)) false)", c.sortOf(m.Key()))))
+		det := c.define("json.det", "Bool", and(eq(errT, "nilIface"), wasEmpty))
+		e.heapSet(st, hn, hsrt, store(h, oldRef, ite(det, "("+kf+" "+str+")", c.freshConst("json.keys", fmt.Sprintf("(Array %s Bool)", c.sortOf(m.Key()))))))
 		hv := e.heapGet(st, vn, vsrt)
-		e.heapSet(st, vn, vsrt, store(hv, oldRef, c.freshConst("json.vals", fmt.Sprintf("(Array %s %s)", c.sortOf(m.Key()), c.sortOf(m.Elem())))))
+		e.heapSet(st, vn, vsrt, store(hv, oldRef, ite(det, "("+vf+" "+str+")", c.freshConst("json.vals", fmt.Sprintf("(Array %s %s)", c.sortOf(m.Key()), c.sortOf(m.Elem()))))))
 		// the cell afterwards holds the old map, or a newly allocated one if it was nil
 		nm := c.freshConst("json.map", sortRef)
 		c.assert(or(eq(nm, oldRef), and(eq(oldRef, "nil"), not(sel(pre, nm)))))
